@@ -44,7 +44,10 @@ RULE = ('random supports <= 7x7 (quick) / 10x10 (thorough), random labelling int
         'segmented and monolithic (optionally with a tilted incoming wavefront, lentil.Tilt planes before/after the apertures, and ONE '
         'incoming Wavefront object re-used for both descriptions); segmented pupils with a different tilt per segment and prop_shape < shape (chips disjoint / '
         'disjoint / bridging in every order) compared with the sum of the single-segment propagations; whole-array vs cropped '
-        'sub-array(s)-with-offset wavefronts; the same two comparisons through lentil.propagate_fft (no scratch, exact and larger '
+        'sub-array(s)-with-offset wavefronts; relays pupil -> image -> (Image-plane stop) -> re-imaged pupil with field, intensity '
+        'and Wavefront.insert compared in every plane; array attributes as ndarray subclasses (masked with/without flags, matrix, '
+        'metadata subclass, memmap; caller memory unchanged); amplitudes scaled by 2^-30..2^-43 and the results un-scaled before '
+        'comparison; up to 12 segments; the same two comparisons through lentil.propagate_fft (no scratch, exact and larger '
         'scratch; complex fields; off-centre supports); planes rescaled / resampled (scale 2, 3, 1/2) before they are multiplied, '
         'segmented vs monolithic and against the rescaled plane\'s own attributes; non-trivial = at least two segments with overlapping bounding boxes, tilted chips, '
         'or at least two sub-arrays')
@@ -103,7 +106,7 @@ def p7_plane(pl, c, seg):
     dx = c['dx'] if isinstance(c['dx'], list) else [c['dx']]
     return {'kind': 'Pupil', 'amp': pl['amp'], 'opd': pl['opd'],
             'mask': {'c': layers_of(pl)} if seg else {'a': union_of(pl)},
-            'pix': dx, 'focal': c['z'], 'tilt': []}
+            'pix': dx, 'focal': c['z'], 'tilt': [], 'aform': pl.get('aform'), 'ascale': pl.get('ascale')}
 
 
 def seg_tilts(c):
@@ -252,6 +255,8 @@ def rnd_seg(rng, maxn, maxs):
     planes = []
     for _ in range(nplanes):
         k = rng.choice([1, 2, 2, 3, 3, 4])          # k = 1: the partition into one segment, as a one-layer cube
+        if n * m >= 16 and rng.random() < 0.12:
+            k = rng.randint(9, 12)                  # many segments
         lab = rnd_labels(rng, n, m, k)
         if lab is None:
             return None
@@ -266,6 +271,15 @@ def rnd_seg(rng, maxn, maxs):
         else:
             opd = {'s': rng.randint(-Lo, 2 * Lo)}
         planes.append({'amp': amp, 'opd': opd, 'labels': lab, 'k': k})
+    # array attributes handed over as ndarray subclasses (same data); amplitudes scaled down by an exact power of two
+    # (1e-9 .. 1e-13): every step is linear in the amplitude, so the normalised results must not change
+    if rng.random() < 0.3:
+        form = rng.choice(P7.SUBFORMS)
+        for pl in planes:
+            pl['aform'] = form
+    if rng.random() < 0.25:
+        for pl in planes:
+            pl['ascale'] = rng.choice([30, 33, 37, 40, 43])
     dx = rng.choice(DYAD[:3])
     if rng.random() < 0.3:
         dx = [dx, rng.choice(DYAD[:3])]
@@ -407,6 +421,245 @@ def rnd_rseg(rng, maxs):
     sh = (n * 2, m * 2) if scale == '2' else (n * 3, m * 3) if scale == '3' else (n, m)
     c['call'] = rnd_call(rng, sh, maxs)
     return c
+
+
+# ------------------------------------------------------------------ relays: pupil -> image -> (stop) -> pupil
+def relay_alphas(c):
+    """(alpha of leg 1, alpha of leg 2, floats agree) for isotropic pixels; leg 2 starts from the image sampling du1/os1"""
+    wl, z, dx = F(c['wl']), F(c['z']), F(c['dx'])
+    c1, c2 = c['call1'], c['call2']
+    a1 = dx * F(c1['du']) / (wl * z * c1['os'])
+    a2 = (F(c1['du']) / c1['os']) * F(c2['du']) / (wl * z * c2['os'])
+    f1 = (float(dx) * float(F(c1['du']))) / (float(wl) * float(z) * c1['os'])
+    f2 = ((float(F(c1['du'])) / c1['os']) * float(F(c2['du']))) / (float(wl) * float(z) * c2['os'])
+    ok = abs(F(f1) - a1) <= abs(a1) * F(1, 2 ** 51) and abs(F(f2) - a2) <= abs(a2) * F(1, 2 ** 51)
+    return a1, a2, ok
+
+
+def relay_L(c):
+    a1, a2, _ = relay_alphas(c)
+    return lcm(lcm(a1.denominator, a2.denominator), c['Lo'])
+
+
+def rnd_relay(rng, maxn):
+    Lo = rng.choice([1, 1, 2, 4])
+    n, m = rng.randint(2, maxn), rng.randint(2, maxn)
+    k = rng.choice([2, 2, 3, 4])
+    lab = rnd_labels(rng, n, m, k)
+    if lab is None:
+        return None
+    amp = {'a': [[P7.rnd_gauss(rng) for _ in range(m)] for _ in range(n)]} if rng.random() < 0.6 else {'s': rng.choice(P7.GAUSS)}
+    opd = {'s': 0} if Lo == 1 else {'a': [[rng.randint(-Lo, 2 * Lo) for _ in range(m)] for _ in range(n)]}
+    os1 = rng.choice([1, 1, 2])
+    S1 = [rng.randint(2, 4), rng.randint(2, 4)]
+    R1, C1 = S1[0] * os1, S1[1] * os1
+    stop = None
+    if rng.random() < 0.6:      # an Image plane between the two legs: a stop (0/1) or a general transmission
+        if rng.random() < 0.6:
+            a = [[[1 if rng.random() < 0.7 else 0, 0] for _ in range(C1)] for _ in range(R1)]
+            a[R1 // 2][C1 // 2] = [1, 0]
+            a[0][0] = [1, 0]
+        else:
+            a = [[P7.rnd_gauss(rng, 0.2) for _ in range(C1)] for _ in range(R1)]
+            a[R1 // 2][C1 // 2] = [1, 1]
+        stop = {'amp': {'a': a}}
+    S2 = [rng.randint(2, maxn), rng.randint(2, maxn)] if rng.random() < 0.5 else [n, m]
+    os2 = rng.choice([1, 1, 2])
+    R2, C2 = S2[0] * os2, S2[1] * os2
+    ro, co = (R2, C2) if rng.random() < 0.6 else (rng.randint(1, R2 + 1), rng.randint(1, C2 + 1))
+    return {'op': 'relay', 'Lo': Lo, 'wl': rng.choice(['1/2', '1/4', '1']), 'z': rng.choice(['1', '2', '4']),
+            'dx': rng.choice(DYAD[:3]), 'planes': [{'amp': amp, 'opd': opd, 'labels': lab, 'k': k}],
+            'call1': {'du': rng.choice(DYAD[:4]), 'shape': S1, 'prop_shape': None, 'os': os1}, 'stop': stop,
+            'call2': {'du': rng.choice(DYAD[:3]), 'shape': S2, 'prop_shape': None, 'os': os2},
+            'insert': {'out': [[rng.randint(-3, 5) for _ in range(co)] for _ in range(ro)],
+                       'w': str(rng.choice([1, 2, F(1, 2), F(3, 4)]))}}
+
+
+def stop_plane(c):
+    return {'kind': 'Plane', 'amp': c['stop']['amp'], 'opd': {'s': 0}, 'mask': None, 'pix': None, 'focal': None, 'tilt': []}
+
+
+def enc_call_of(call):
+    du = float(F(call['du']))
+    return (C.enc_q(du) + C.enc_q(du) + C.enc_opt(call['shape'], lambda sh: [int(sh[0]), int(sh[1])])
+            + C.enc_opt(call['prop_shape'], lambda sh: [int(sh[0]), int(sh[1])]) + [call['os']])
+
+
+def encode_relay(c):
+    L, lam = relay_L(c), F(c['wl'])
+    out = [8, L] + C.enc_q(lam)
+    for seg in (True, False):
+        pc = p7_case(c, seg)
+        out += [len(pc['planes'])]
+        for pl in pc['planes']:
+            out += P7.enc_plane(pl, c['Lo'], lam)
+    out += enc_call_of(c['call1'])
+    out += [0] if c['stop'] is None else [1] + P7.enc_plane(stop_plane(c), c['Lo'], lam)
+    out += enc_call_of(c['call2'])
+    ins = c['insert']
+    return out + P7.enc_carr([[[v, 0] for v in row] for row in ins['out']]) + C.enc_c((F(ins['w']), 0))
+
+
+def decode_relay(c, ints):
+    L = relay_L(c)
+    a1, a2, _ = relay_alphas(c)
+    s1 = abs(float(a1))                       # sqrt|a_r a_c| of leg 1 (isotropic)
+    s2 = s1 * abs(float(a2))
+    rd = C.Reader(ints, L)
+    assert rd.z() == 0
+    res = {}
+    for key in ('seg', 'mono'):
+        r = {}
+        res[key] = r
+        if rd.z() == 1:
+            r['err'] = C.ERRNAMES[rd.z()]
+            continue
+        r['pre_field'], r['pre_intensity'] = P7.read_fdata(rd, L), P7.read_fdata(rd, L)
+        if rd.z() == 1:
+            r['image'] = {'err': C.ERRNAMES[rd.z()]}
+            continue
+        r['image'] = read_views2(rd, L, s1)
+        if rd.z() == 1:
+            r['pupil'] = {'err': C.ERRNAMES[rd.z()]}
+            continue
+        r['pupil'] = read_views2(rd, L, s2)
+        if rd.z() == 1:
+            r['insert'] = {'err': C.ERRNAMES[rd.z()]}
+        else:
+            w = float(F(c['insert']['w']))
+            out = c['insert']['out']
+            # the model adds weight * |unscaled field|^2: rescale the added part only
+            a = rd.arr()
+            r['insert'] = {'arr': [[out[i][j] + (C.kval(v, L) - out[i][j]) * s2 * s2 for j, v in enumerate(row)]
+                                   for i, row in enumerate(a)]}
+    assert rd.done()
+    return res
+
+
+def read_views2(rd, L, sc):
+    shape = [rd.z(), rd.z()]
+
+    def rarr(s):
+        if rd.z() == 1:
+            return {'err': C.ERRNAMES[rd.z()]}
+        return {'arr': [[C.kval(v, L) * s for v in row] for row in rd.arr()]}
+    return {'shape': shape, 'field': rarr(sc), 'intensity': rarr(sc * sc)}
+
+
+def run_relay(c):
+    lentil = C.import_lentil()
+    lam = F(c['wl'])
+    res = {}
+
+    def views(w):
+        return {'shape': [int(w.shape[0]), int(w.shape[1])], 'field': P7.view(lambda: w.field),
+                'intensity': P7.view(lambda: w.intensity)}
+
+    def prop(w, call):
+        return lentil.propagate_dft(w, pixelscale=float(F(call['du'])), shape=tuple(call['shape']), oversample=call['os'])
+    for key, seg in (('seg', True), ('mono', False)):
+        r = {}
+        res[key] = r
+        try:
+            w = lentil.Wavefront(wavelength=float(lam))
+            for pl in p7_case(c, seg)['planes']:
+                w = w * P7.mk_plane(pl, c['Lo'], lam)
+        except Exception as e:
+            r['err'] = type(e).__name__
+            continue
+        r['pre_field'], r['pre_intensity'] = P7.view(lambda: w.field), P7.view(lambda: w.intensity)
+        try:
+            w = prop(w, c['call1'])
+        except Exception as e:
+            r['image'] = {'err': type(e).__name__}
+            continue
+        r['image'] = views(w)
+        try:
+            if c['stop'] is not None:
+                w = w * lentil.Image(amplitude=P7.np_attr(c['stop']['amp']['a']))
+            w = prop(w, c['call2'])
+        except Exception as e:
+            r['pupil'] = {'err': type(e).__name__}
+            continue
+        r['pupil'] = views(w)
+        r['ptype'] = str(w.ptype)
+        r['insert'] = P7.view(lambda: w.insert(np.array(c['insert']['out'], dtype=float), weight=float(F(c['insert']['w']))))
+    return res
+
+
+def cmp_stage(a, b, what):
+    if ('err' in a) or ('err' in b):
+        if a.get('err') != b.get('err'):
+            return f'{what}: implementation {a.get("err", "returned a value")}, model {b.get("err", "returned a value")}'
+        return None
+    if a['shape'] != b['shape']:
+        return f'{what}: shape {a["shape"]} vs model {b["shape"]}'
+    return (P7.cmp_view(a['field'], b['field'], TOL, what + ' field')
+            or P7.cmp_view(a['intensity'], b['intensity'], TOL, what + ' intensity'))
+
+
+def compare_relay(c, impl, model):
+    for key in ('seg', 'mono'):
+        a, b = impl[key], model[key]
+        if ('err' in a) or ('err' in b):
+            if a.get('err') != b.get('err'):
+                return f'{key}: implementation {a.get("err", "ok")}, model {b.get("err", "ok")}'
+            continue
+        m = (P7.cmp_view(a['pre_field'], b['pre_field'], TOL, key + ' entrance pupil field')
+             or P7.cmp_view(a['pre_intensity'], b['pre_intensity'], TOL, key + ' entrance pupil intensity')
+             or cmp_stage(a['image'], b['image'], key + ' image plane'))
+        if m:
+            return m
+        if 'pupil' in a or 'pupil' in b:
+            m = cmp_stage(a.get('pupil', {'err': 'missing'}), b.get('pupil', {'err': 'missing'}), key + ' re-imaged pupil')
+            if m:
+                return m
+            if 'insert' in a and 'insert' in b:
+                m = P7.cmp_view(a['insert'], b['insert'], TOL, key + ' insert in the re-imaged pupil')
+                if m:
+                    return m
+    return None
+
+
+def oracle_relay(c, impl):
+    a, b = impl['seg'], impl['mono']
+    if 'err' in b:
+        return None if 'err' in a else f'the monolithic description raised {b["err"]}'
+    if 'err' in a:
+        return f'the segmented description raised {a["err"]} (the monolithic one did not)'
+    m = (same_view(a['pre_field'], b['pre_field'], 'segmented vs monolithic entrance-pupil field')
+         or same_view(a['pre_intensity'], b['pre_intensity'], 'segmented vs monolithic entrance-pupil intensity'))
+    if m:
+        return m
+    for stage, name in (('image', 'image plane'), ('pupil', 're-imaged pupil')):
+        x, y = a.get(stage), b.get(stage)
+        if x is None or y is None:
+            return None if (x is None and y is None) else f'{name}: only one description got there'
+        if 'err' in x or 'err' in y:
+            if x.get('err') != y.get('err'):
+                return f'{name}: segmented {x.get("err", "ok")}, monolithic {y.get("err", "ok")}'
+            return None
+        m = (same_view(x['field'], y['field'], f'segmented vs monolithic field in the {name}')
+             or same_view(x['intensity'], y['intensity'], f'segmented vs monolithic intensity in the {name}')
+             or coherent(x['field'], x['intensity'], f'segmented, {name}') or coherent(y['field'], y['intensity'], f'monolithic, {name}'))
+        if m:
+            return m
+    m = same_view(a['insert'], b['insert'], 'segmented vs monolithic Wavefront.insert in the re-imaged pupil')
+    if m:
+        return m
+    # insert = out + weight * intensity on the overlap (both arrays centred on floor(n/2))
+    if 'arr' in a['insert'] and 'arr' in a['pupil']['intensity']:
+        out, w = c['insert']['out'], float(F(c['insert']['w']))
+        I = a['pupil']['intensity']['arr']
+        R, Cc, n, mm = len(out), len(out[0]), len(I), len(I[0])
+        for i in range(R):
+            for j in range(Cc):
+                ii, jj = i - R // 2 + n // 2, j - Cc // 2 + mm // 2
+                inten = I[ii][jj].real if (0 <= ii < n and 0 <= jj < mm) else 0.0
+                if not P7.close(a['insert']['arr'][i][j], out[i][j] + w * inten, TOL):
+                    return (f'Wavefront.insert in the re-imaged pupil: [{i},{j}] = {a["insert"]["arr"][i][j]}, '
+                            f'out + weight*intensity = {out[i][j] + w * inten}')
+    return None
 
 
 # ------------------------------------------------------------------ propagate_fft as the propagation setting
@@ -603,6 +856,17 @@ def oracle_f(c, impl):
 
 def generate(rng, tier):
     quick = tier == 'quick'
+    out = tries = 0
+    while out < (30 if quick else 400) and tries < 100000:
+        tries += 1
+        c = rnd_relay(rng, 4 if quick else 6)
+        if c is None:
+            continue
+        a1, a2, ok = relay_alphas(c)
+        if not ok or relay_L(c) > (48 if quick else 64) or abs(a1) > 2 or abs(a2) > 2:
+            continue
+        out += 1
+        yield c
     nf, nfc = (40, 15) if quick else (500, 150)
     out = tries = 0
     while out < (25 if quick else 300) and tries < 100000:
@@ -662,6 +926,8 @@ def generate(rng, tier):
 
 
 def classify(c):
+    if c['op'] == 'relay':
+        return 'relay/' + str(c['planes'][0]['k']) + ('/stop' if c['stop'] else '')
     if c['op'] in ('fseg', 'fcrop'):
         return c['op'] + '/' + str(c['fcall']['scratch']) + ('/shape' if c['fcall']['shape'] else '')
     if c['op'] == 'crop':
@@ -671,11 +937,14 @@ def classify(c):
     if c['op'] == 'rseg':
         return f'rseg/{c["how"]}/{c["scale"]}/' + '-'.join(str(pl['k']) for pl in c['planes'])
     return ('seg/' + '-'.join(('T' if 'shift' in pl else str(pl['k'])) for pl in c['planes']) + ('/wt' if c.get('wshift') else '')
+            + ('/' + real_planes(c)[0]['aform'] if real_planes(c)[0].get('aform') else '') + ('/scaled' if real_planes(c)[0].get('ascale') else '')
             + ('/reuse' if c.get('reuse') else '') + ('/opd' if c['Lo'] > 1 else '')
             + ('/1px' if single_sample(c) else ''))
 
 
 def nontrivial(c):
+    if c['op'] == 'relay':
+        return True
     if c['op'] in ('fseg', 'fcrop'):
         return True
     if c['op'] == 'crop':
@@ -704,6 +973,8 @@ def enc_call(c):
 
 
 def encode(c):
+    if c['op'] == 'relay':
+        return encode_relay(c)
     if c['op'] in ('fseg', 'fcrop'):
         return encode_f(c)
     L = case_L(c)
@@ -750,6 +1021,8 @@ def read_views(rd, L, sc):
 
 
 def decode(c, ints):
+    if c['op'] == 'relay':
+        return decode_relay(c, ints)
     if c['op'] in ('fseg', 'fcrop'):
         return decode_f(c, ints)
     L = case_L(c) if c['op'] != 'rseg' else c['Lo']
@@ -812,15 +1085,38 @@ def run_variant(lentil, c, seg, w0=None):
                 w = w * rescaled(lentil, c, P7.mk_plane(p7_plane(pl, c, seg), c['Lo'], lam))
         else:
             w = mk_w0(lentil, c) if w0 is None else w0
+            keep = []
             for pl in p7_case(c, seg)['planes']:
-                w = w * P7.mk_plane(pl, c['Lo'], lam)
+                w = w * P7.mk_plane(pl, c['Lo'], lam, keep)
     except Exception as e:
         return {'err': type(e).__name__}
-    return {'pre_field': P7.view(lambda: w.field), 'pre_intensity': P7.view(lambda: w.intensity),
-            'post': do_call(lentil, w, c)}
+    res = {'pre_field': P7.view(lambda: w.field), 'pre_intensity': P7.view(lambda: w.intensity),
+           'post': do_call(lentil, w, c)}
+    if c['op'] != 'rseg':
+        # amplitudes were scaled by f = prod 2^-ascale: undo the scaling (exactly) before anything is compared
+        f = 1.0
+        for pl in real_planes(c):
+            f *= 2.0 ** (-pl['ascale']) if pl.get('ascale') else 1.0
+        if f != 1.0:
+            res['pre_field'], res['pre_intensity'] = unscale(res['pre_field'], f), unscale(res['pre_intensity'], f * f)
+            if 'err' not in res['post']:
+                res['post']['field'] = unscale(res['post']['field'], f)
+                res['post']['intensity'] = unscale(res['post']['intensity'], f * f)
+        res['memory'] = P7.memory_changed(keep)
+    return res
+
+
+def unscale(v, f):
+    if 'arr' in v:
+        return {'arr': [[x / f for x in row] for row in v['arr']]}
+    if 'v' in v:
+        return {'v': v['v'] / f}
+    return v
 
 
 def run_impl(c):
+    if c['op'] == 'relay':
+        return run_relay(c)
     if c['op'] in ('fseg', 'fcrop'):
         return run_impl_f(c)
     lentil = C.import_lentil()
@@ -879,6 +1175,8 @@ def cmp_post(a, b, what):
 
 
 def compare(c, impl, model):
+    if c['op'] == 'relay':
+        return compare_relay(c, impl, model)
     if c['op'] in ('fseg', 'fcrop'):
         return compare_f(c, impl, model)
     if c['op'] in ('seg', 'tseg', 'rseg'):
@@ -978,6 +1276,8 @@ def oracle_rescaled_pointwise(c, impl):
 
 
 def oracle(c, impl):
+    if c['op'] == 'relay':
+        return oracle_relay(c, impl)
     if c['op'] in ('fseg', 'fcrop'):
         return oracle_f(c, impl)
     if c['op'] == 'rseg':
@@ -988,6 +1288,9 @@ def oracle(c, impl):
         return oracle_tseg(c, impl)
     if c['op'] in ('seg', 'rseg'):
         a, b = impl['seg'], impl['mono']
+        for key in ('seg', 'mono'):
+            if impl[key].get('memory'):
+                return f'{key}: {impl[key]["memory"]} by the multiplication / propagation'
         if 'err' in b:
             return None if 'err' in a else f'the monolithic description raised {b["err"]}'
         if 'err' in a:
